@@ -109,9 +109,9 @@ Definition suffix_at (t : tindex) (ord : N) : res bytes :=
   let c := ti_count t in
   if ord <? c then Ok (sub (ti_buf t) (16 * c + 12 * ord) 12) else Err.
 
-(* hashAt (table_index.go:444, used by ResolveShortHash) has NO such guard: the same slice, checked
-   by Go only against the capacity of suffixes (12*c suffix bytes + 20 footer bytes).  Not part of
-   the open/has/get/getMany/iterate paths; modelled to state where a panic is still possible. *)
+(* hashAt (table_index.go:448) itself has no guard: the same slice, checked by Go only against the
+   capacity of suffixes (12*c suffix bytes + 20 footer bytes).  Its only caller, ResolveShortHash,
+   now checks ordinalAt(i) < count first (see [resolve] below). *)
 Definition hash_at (t : tindex) (idx : N) : res bytes :=
   let c := ti_count t in
   let ord := ord_at t idx in
@@ -186,6 +186,66 @@ Definition index_entry_nil (t : tindex) (idx : N) : res (N * N) :=
 (* tableReader.has (table_reader.go:279) *)
 Definition has (t : tindex) (h : bytes) : res bool :=
   bind (lookup t h) (fun e => Ok (match e with Some _ => true | None => false end)).
+
+(* ---- ResolveShortHash (table_index.go:564, after commit a794b79) ---------------------- *)
+
+(* base32 in dolt's alphabet 0-9a-v: character -> 5-bit digit *)
+Definition is_b32 (b : N) : bool := ((48 <=? b) && (b <=? 57)) || ((97 <=? b) && (b <=? 118)).
+Definition b32_val (c : N) : N := if c <=? 57 then c - 48 else c - 87.
+Definition valid_short (s : bytes) : bool := (blen s <=? 32) && forallb is_b32 s.
+Definition digits_val (ds : list N) : N := fold_left (fun a d => a * 32 + d) ds 0.
+Fixpoint enc_digits (k : nat) (v : N) : list N :=
+  match k with O => [] | S k' => ((v / 32 ^ N.of_nat k') mod 32) :: enc_digits k' v end.
+(* padStringAndDecode: "0" pads on the right, any other pad character on the LEFT (as written) *)
+Definition pad_lo (ds : list N) : N := digits_val (ds ++ repeat 0 (32 - length ds)) / 2 ^ 96.
+Definition pad_hi (ds : list N) : N := digits_val (repeat 31 (32 - length ds) ++ ds) / 2 ^ 96.
+
+(* prefixIdxLBound is the same loop as findPrefix *)
+(* prefixIdxUBound (table_index.go:485) *)
+Fixpoint ubound_loop (fuel : nat) (t : tindex) (p l r : N) : N :=
+  match fuel with
+  | O => l
+  | S f => if l <? r then
+             let m := l + (r - l + 1) / 2 in
+             if ti_count t <=? m then r
+             else if prefix_at t m <=? p then ubound_loop f t p m r else ubound_loop f t p l (m - 1)
+           else l
+  end.
+
+(* for pIdxU < ti.count && sPrefix == ti.prefixAt(pIdxU) *)
+Fixpoint eq_scan (fuel : nat) (t : tindex) (p u : N) : N :=
+  match fuel with
+  | O => u
+  | S f => if (u <? ti_count t) && (prefix_at t u =? p) then eq_scan f t p (u + 1) else u
+  end.
+
+Fixpoint resolve_loop (fuel : nat) (t : tindex) (ds : list N) (i u : N) (acc : list bytes) : res (list bytes) :=
+  match fuel with
+  | O => Ok (rev acc)
+  | S f =>
+    if i <? u then
+      if ti_count t <=? ord_at t i then Err                         (* ErrInvalidTableFile (:609) *)
+      else bind (hash_at t i) (fun h =>
+             resolve_loop f t ds (i + 1) u
+               (if beq_bytes (firstn (length ds) (enc_digits 32 (be h))) ds then h :: acc else acc))
+    else Ok (rev acc)
+  end.
+
+(* Panic for a [short] that is not at most 32 base32 characters: hash.Parse in padStringAndDecode
+   (a caller-side precondition, not file content) *)
+Definition resolve (t : tindex) (short : bytes) : res (list bytes) :=
+  if negb (valid_short short) then Panic
+  else
+    let ds := map b32_val short in
+    let c := ti_count t in
+    if 13 <=? blen short then
+      let p := pad_lo ds in
+      let l := find_prefix t p in
+      if l =? c then Err                                             (* "can't find prefix" *)
+      else resolve_loop (N.to_nat c) t ds l (eq_scan (N.to_nat c) t p (l + 1)) []
+    else
+      resolve_loop (N.to_nat c) t ds (find_prefix t (pad_lo ds))
+                   (ubound_loop (S (N.to_nat c)) t (pad_hi ds) 0 c) [].
 
 Section WithCrc.
 Variable crc : bytes -> N.
@@ -417,7 +477,6 @@ End WithCrc.
 Definition colon : N := 58.
 
 (* hash.MaybeParse: ^[0-9a-v]{32}$ *)
-Definition is_b32 (b : N) : bool := ((48 <=? b) && (b <=? 57)) || ((97 <=? b) && (b <=? 118)).
 Definition valid_hash_str (s : bytes) : bool := (blen s =? 32) && forallb is_b32 s.
 
 (* strconv.ParseUint(s, 10, 32) *)
